@@ -541,15 +541,17 @@ func VerifHarness_C01_O4() {
 	verifReach("end")
 }
 
-// O2c: coin rounds.  Four validators, rounds 0..5, one witness
-// per validator and round; the witnesses of rounds 2..5 strongly see all of the
-// previous round's witnesses but one (which one rotates; two rotation families
-// are shape cases) so that 2-2 splits can survive until the coin round
-// (round 4 = 0 + COIN_ROUND_FREQ).  First-round votes are symbolic, the middle
-// bit of each coin-round witness's hash is a shape case.  The fame DecideFame
-// assigns to x must equal an independent reference simulation of the
-// documented algorithm (normal rounds decide with a supermajority, coin rounds
-// never decide and flip to the middle bit without one).
+// O2c: coin rounds.  Four validators, rounds 0..5, one witness per validator
+// and round; every witness of rounds 2..5 strongly sees all of the previous
+// round's witnesses but one.  Which one is a shape case PER ROUND: either it
+// rotates with the witness (2-2 splits survive) or everybody misses the same
+// one (2-1 views that all tip the same way, so that a coin-round witness can
+// see a supermajority nobody decided on).  First-round votes are symbolic, the
+// middle bits of two of the coin-round witnesses' hashes are shape cases.  The
+// fame DecideFame assigns to x must equal an independent reference simulation
+// of the documented algorithm (normal rounds decide with a supermajority; coin
+// rounds never decide, keep a seen supermajority and flip to the middle bit
+// otherwise).
 func VerifHarness_C01_O2c() {
 	n := 4
 	vn := verifNewNet(n, 100)
@@ -559,7 +561,20 @@ func VerifHarness_C01_O2c() {
 	r0 := NewRoundInfo()
 	r0.AddCreatedEvent("x", true)
 	h.Store.SetRound(0, r0)
-	shift := 1 + verifChoice("rotation", 2)
+	// excluded(j,k): the round-(j-1) witness that witness k of round j does not strongly see
+	fam := make([]int, 6)
+	for j := 2; j <= 5; j++ {
+		fam[j] = verifChoice(fmt.Sprintf("family%d", j), 3)
+	}
+	excluded := func(j, k int) int {
+		switch fam[j] {
+		case 0:
+			return (k + 1) % n
+		case 1:
+			return (k + 2) % n
+		}
+		return 3
+	}
 	votes := make([]bool, n)
 	names := make([][]string, 6)
 	names[1] = make([]string, n)
@@ -581,7 +596,10 @@ func VerifHarness_C01_O2c() {
 			name := fmt.Sprintf("0X%02X%02X", j, k)
 			if j == 4 {
 				// middle byte of the decoded hash: zero => coin says false
-				coinBit[k] = verifChoice(fmt.Sprintf("middleBit%d", k), 2) == 1
+				coinBit[k] = true
+				if k < 2 {
+					coinBit[k] = verifChoice(fmt.Sprintf("middleBit%d", k), 2) == 1
+				}
 				if coinBit[k] {
 					name = fmt.Sprintf("0X%02XFF%02X", j, k)
 				} else {
@@ -592,7 +610,7 @@ func VerifHarness_C01_O2c() {
 			verifAbstractEvent(vn, name, k, 10*j)
 			rj.AddCreatedEvent(name, true)
 			for i := 0; i < n; i++ {
-				h.stronglySeeCache.Add(treKey{name, names[j-1][i], vn.set.Hex()}, i != (k+shift)%n)
+				h.stronglySeeCache.Add(treKey{name, names[j-1][i], vn.set.Hex()}, i != excluded(j, k))
 			}
 		}
 		h.Store.SetRound(j, rj)
@@ -605,12 +623,13 @@ func VerifHarness_C01_O2c() {
 	decided := false
 	decision := false
 	coinUsed := false
+	coinKept := false
 	for j := 2; j <= 5 && !decided; j++ {
 		cur := make([]bool, n)
 		for k := 0; k < n; k++ {
 			yays, nays := 0, 0
 			for i := 0; i < n; i++ {
-				if i != (k+shift)%n {
+				if i != excluded(j, k) {
 					if prev[i] {
 						yays++
 					} else {
@@ -632,6 +651,7 @@ func VerifHarness_C01_O2c() {
 			} else {
 				if t >= sm {
 					cur[k] = v
+					coinKept = true
 				} else {
 					cur[k] = coinBit[k]
 					coinUsed = true
@@ -639,6 +659,9 @@ func VerifHarness_C01_O2c() {
 			}
 		}
 		prev = cur
+	}
+	if coinKept {
+		verifReach("coin-round-witness-keeping-a-seen-supermajority")
 	}
 	if coinUsed {
 		verifReach("coin-flip-exercised")
